@@ -154,7 +154,7 @@ def main():
                 "quick_cmd": f"/verif/check {pid} quick",
                 "thorough_cmd": f"/verif/check {pid} thorough",
                 "evidence_file": f"/verif/evidence/{pid}.json",
-                "replay_cmd_template": "cat {path}",
+                "replay_cmd_template": "/verif/bin/govc replay {path}",
                 "engine": "govc",
                 "level_claimed": {"category": "proof", "text": text, "design_ref": ref},
                 "level_note": note,
